@@ -13,18 +13,18 @@ type SchedStep struct {
 }
 
 type gates struct {
-	mu      sync.Mutex
-	cond    *sync.Cond
-	sched   []SchedStep
-	pos     int
-	free    bool // schedule exhausted or abandoned: everything passes
-	active  bool // gating starts once the VM's initialisation is over
-	offset  int64
-	onCancel func()
+	mu        sync.Mutex
+	cond      *sync.Cond
+	sched     []SchedStep
+	pos       int
+	free      bool // schedule exhausted or abandoned: everything passes
+	active    bool // gating starts once the VM's initialisation is over
+	offset    int64
+	onCancel  func()
 	lastOffer time.Time
-	done     chan struct{}
-	diverge string
-	waiting map[string]int
+	done      chan struct{}
+	diverge   string
+	waiting   map[string]int
 }
 
 // Lock acquisitions are gated BEFORE the lock is taken (a goroutine parked at a gate must not hold a
